@@ -9,7 +9,7 @@ Import ListNotations.
    (n2..nk arbitrary names): exactly the missing chain is created — name steps become
    nested (n0-) dictionaries holding v at the end — and nothing is raised.
    (partial with respect to the property's whole creation grammar: single list-creating steps
-   are the next two theorems; suffixes that combine several of them, and [len], are covered
+   are the next theorems; suffixes that combine several of them are covered
    by the correspondence check and the reference oracle only; see DESIGN.md 5/C03.) *)
 Theorem C03_creates_names_partial :
   forall fuel root x v toks p c kvs n1 ns,
@@ -62,6 +62,30 @@ Theorem C03_new_appends :
   setitem_core fuel root x v = Ok (replace_at root p (Lst c (items ++ [v]))).
 Proof. exact setitem_appends. Qed.
 Print Assumptions C03_new_appends.
+
+(* [len] (an index equal to the length of the list, in any spelling that evaluates to it) appends exactly one
+   element, like [new()] ... *)
+Theorem C03_len_appends :
+  forall fuel root x v toks p c items y si,
+  has_path_char x = true -> tokenize x = toks ++ [y] ->
+  walk root toks p (Lst c items) ->
+  split_name_index y = Ok ([], IdxStr si) -> plain_idx si -> n0eval si = EvInt (Z.of_nat (length items)) ->
+  2 * length toks + 2 <= fuel ->
+  setitem_core fuel root x v = Ok (replace_at root p (Lst c (items ++ [v]))).
+Proof. exact setitem_appends_at_len. Qed.
+Print Assumptions C03_len_appends.
+
+(* ... and an index beyond the end is refused with SyntaxError instead of storing v anywhere *)
+Theorem C03_beyond_end_refused :
+  forall fuel root x v toks p c items y si z,
+  has_path_char x = true -> tokenize x = toks ++ [y] ->
+  walk root toks p (Lst c items) ->
+  split_name_index y = Ok ([], IdxStr si) -> plain_idx si -> n0eval si = EvInt z ->
+  (Z.of_nat (length items) < z)%Z ->
+  2 * length toks + 2 <= fuel ->
+  setitem_core fuel root x v = Raise ExSyntax.
+Proof. exact setitem_refuses_beyond_end. Qed.
+Print Assumptions C03_beyond_end_refused.
 
 Theorem C03_new_appends_nonvacuous :
   keys_good ap_root /\
